@@ -21,6 +21,7 @@ from bacpypes.task import FunctionTask, OneShotFunction
 from .vclock import CLOCK
 
 DELIVER, DROP, DUP, DELAY, HOLD = "deliver", "drop", "dup", "delay", "hold"
+DUPLATE = "duplate"         # delivered now and once more after a delay (a copy that took another path)
 
 
 class Plan:
@@ -84,6 +85,10 @@ class FaultNet(Network):
         elif kind == DUP:
             self.deliver(pdu)
             OneShotFunction(self.deliver, pdu)
+        elif kind == DUPLATE:
+            self.deliver(pdu)
+            t = FunctionTask(self.deliver, pdu)
+            t.install_task(delta=act[1])
         elif kind == DELAY:
             t = FunctionTask(self.deliver, pdu)
             if len(act) > 2 and act[2] == "fifo":
